@@ -55,6 +55,9 @@ pub fn fork_run<F: FnOnce(&mut std::fs::File)>(cpu_secs: u64, wall_ms: i64, f: F
             // hard limit left open so that a scenario can re-arm the soft limit per case (set_cpu_budget_from_now)
             let lim = libc::rlimit { rlim_cur: cpu_secs, rlim_max: libc::RLIM_INFINITY };
             libc::setrlimit(libc::RLIMIT_CPU, &lim);
+            // a runaway allocation must end this child (allocation failure aborts), not the machine
+            let mem = libc::rlimit { rlim_cur: 8 << 30, rlim_max: 8 << 30 };
+            libc::setrlimit(libc::RLIMIT_AS, &mem);
             let nocore = libc::rlimit { rlim_cur: 0, rlim_max: 0 };
             libc::setrlimit(libc::RLIMIT_CORE, &nocore);
             // own process group, so that helper children (fake rustfmt) die with us
